@@ -358,6 +358,8 @@ class BuildError(Exception):
 
 
 def run_model(lines, timeout=1800):
+    if timeout == 1800:
+        timeout = max(1800, len(lines) // 150)   # as run_impl: grows with the batch
     ok, log = build_ocaml()
     if not ok:
         raise BuildError("ocaml/extraction build failed:\n" + log[-2000:])
